@@ -121,6 +121,10 @@ structure ObsErr where
   p : Str
   q : Str
   subject : Str
+  /-- the error text did not have the known wording: `p`, `q` are the first two plugin names
+      found in it, `subject` is empty; judge by looking for the item's key in `text` -/
+  loose : Bool := false
+  text : Str := []
 
 /-- an OCI spec rendered family by family into canonical strings (harness/merge/spec.go) -/
 structure SpecFamilies where
@@ -147,7 +151,8 @@ def decCaseObs (kind : String) (j : Json) : Except String CaseObs := do
   let e ← getObj j "err"
   let views ← getArr j "views"
   pure { comb := ← optOf j "comb" decFamilies, seq := ← optOf j "seq" decFamilies, genErr := getStrD j "genErr",
-         err := { kind := ← getStr e "kind", p := S (getStrD e "p"), q := S (getStrD e "q"), subject := S (getStrD e "subject") },
+         err := { kind := ← getStr e "kind", p := S (getStrD e "p"), q := S (getStrD e "q"), subject := S (getStrD e "subject"),
+                  loose := (e.getObjValAs? Bool "loose").toOption.getD false, text := S (getStrD e "text") },
          adjust := ← optOf j "adjust" decAdjust,
          updates := ← arrF j "updates" decOptUpdate,
          invoked := ← strsF j "invoked",
